@@ -101,6 +101,10 @@ def _create_name_annotation(name: str) -> str:
 
 
 def _replace_if_safeds_keyword(keyword: str) -> str:
+    if "." in keyword:
+        # A package path, each of its segments can be a keyword
+        return ".".join(_replace_if_safeds_keyword(segment) for segment in keyword.split("."))
+
     if keyword in {
         "_",
         "and",
